@@ -14,7 +14,7 @@ def C07_PathsDeliver (s : Store) (cid : Nat) (k : Str) (row : Nat) (v : V) : Pro
 
 theorem C07_read_paths_identical (s : Store) (hg : GoodS s) : C07_RoutesThen s C07_PathsDeliver :=
   C07_routes_mono s Stored C07_PathsDeliver
-    (fun _ _ _ _ _ h => ⟨fun l hl => h.iter l hl, fun l hl B fuel hC hB hid hin hne => h.walk l hl B hB fuel hC hid hin hne⟩)
+    (fun _ _ _ _ _ h => ⟨fun l hl => h.iter l hl, fun l hl fuel hC hid hne => h.walkPos l hl fuel hC hid hne⟩)
     (C07_routes_stored s hg)
 
 /-- **C07_parser_read_paths** — every value the parser model stores is delivered identical by packet iteration and by cif_walk.  For
